@@ -1,4 +1,5 @@
 from enum import Enum
+from threading import RLock
 from typing import (
     Any,
     Collection,
@@ -121,6 +122,11 @@ def recursion_cache(checker_cls: Type[RecursiveChecker]) -> Dict[RecursionKey, b
     return {}
 
 
+# The recursion cache is shared: an analysis must not see the partial results of
+# another one running in another thread
+_lock = RLock()
+
+
 @cache
 def is_recursive(
     tp: AnyType,
@@ -128,10 +134,11 @@ def is_recursive(
     default_conversion: DefaultConversion,
     checker_cls: Type[RecursiveChecker],
 ) -> bool:
-    cache, rec_key = recursion_cache(checker_cls), (tp, conversion)
-    if rec_key not in cache:
-        checker_cls(default_conversion).visit_with_conv(tp, conversion)
-    return cache[rec_key]
+    with _lock:
+        cache, rec_key = recursion_cache(checker_cls), (tp, conversion)
+        if rec_key not in cache:
+            checker_cls(default_conversion).visit_with_conv(tp, conversion)
+        return cache[rec_key]
 
 
 class RecursiveConversionsVisitor(ConversionsVisitor[Conv, Result]):
